@@ -51,18 +51,43 @@ def outflux(k, x):
     return k * x
 
 
-def make_model(x0: float = X0, p: dict | None = None, r: Rendering = SMALL):
+RAMP_UNITS = 32   # the time-dependent member: extra inflow r * time with r = 32 parameter units per tick of time
+
+
+def rampflux(time, r):
+    return r * time
+
+
+def x0_of_kin(kin):
+    return kin * X0_PER_KIN[0]
+
+
+X0_PER_KIN = [0.0]   # set per model (module-level because rate functions must be plain functions)
+
+
+def make_model(x0: float = X0, p: dict | None = None, r: Rendering = SMALL, ramp: bool = False, ia: bool = False):
+    """x' = kin - k*x [+ r*time when ramp].  ia: the initial value of x is assignment-defined (X0 under the
+    parameter values at construction, proportional to kin)."""
     from mxlpy import Model
+    from mxlpy.types import InitialAssignment
 
     p = p or P0
     PS = r.ps  # noqa: N806
-    return (
+    X0_PER_KIN[0] = x0 / (p["kin"] * PS)
+    m = (
         Model()
-        .add_variables({"x": x0})
         .add_parameters({"kin": p["kin"] * PS, "k": p["kk"] * PS})
+        .add_variables({"x": InitialAssignment(fn=x0_of_kin, args=["kin"]) if ia else x0})
         .add_reaction("vin", influx, args=["kin"], stoichiometry={"x": 1.0})
         .add_reaction("vout", outflux, args=["k", "x"], stoichiometry={"x": -1.0})
     )
+    if ramp:
+        m.add_parameter("r", ramp_rate(r)).add_reaction("vramp", rampflux, args=["time", "r"], stoichiometry={"x": 1.0})
+    return m
+
+
+def ramp_rate(r: Rendering) -> float:
+    return RAMP_UNITS * r.ps / r.ts
 
 
 def flow(kin: float, k: float, dt: float, x0: float) -> float:
@@ -71,6 +96,20 @@ def flow(kin: float, k: float, dt: float, x0: float) -> float:
         return x0 + kin * dt
     xs = kin / k
     return xs + (x0 - xs) * math.exp(-k * dt)
+
+
+def flow_t(kin: float, k: float, rr: float, t0: float, t: float, x0: float) -> float:
+    """Closed-form solution of x' = kin + rr*time - k*x from (t0, x0) to absolute time t: the particular solution
+    xp(t) = (rr/k) t + kin/k - rr/k^2 plus the decaying difference."""
+    if rr == 0.0:
+        return flow(kin, k, t - t0, x0)
+    if k == 0.0:
+        return x0 + kin * (t - t0) + rr * (t * t - t0 * t0) / 2.0
+
+    def xp(s):
+        return (rr / k) * s + kin / k - rr / (k * k)
+
+    return xp(t) + (x0 - xp(t0)) * math.exp(-k * (t - t0))
 
 
 def close(a: float, b: float, rel: float = REL, abs_: float = ABS) -> bool:
@@ -99,11 +138,14 @@ def step_dicts(steps: list, r: Rendering, salt: int) -> list:
 class Run:
     """One real Simulator driven by specification operations."""
 
-    def __init__(self, r: Rendering = SMALL, salt: int = 0):
+    def __init__(self, r: Rendering = SMALL, salt: int = 0, ramp: bool = False, ia: bool = False):
         from mxlpy import Simulator
 
         self.r = r
-        self.model = make_model(r=r)
+        self.ramp = ramp_rate(r) if ramp else 0.0
+        self.ia = ia
+        self.cand_kin = {P0["kin"]}     # kin values in force while the simulator had not run yet (ia start state)
+        self.model = make_model(r=r, ramp=ramp, ia=ia)
         self.sim = Simulator(self.model)
         self.bases = {0: 0.0}
         self.touched = False     # the history has read the computed views of a result
@@ -224,7 +266,8 @@ class Run:
         self.touched = True
         return {"variables": {"t": [float(v) for v in va.index], "x": [float(v) for v in va["x"].to_numpy()]},
                 "fluxes": {"t": [float(v) for v in fl.index], "vin": [float(v) for v in fl["vin"].to_numpy()],
-                           "vout": [float(v) for v in fl["vout"].to_numpy()]},
+                           "vout": [float(v) for v in fl["vout"].to_numpy()],
+                           "vramp": [float(v) for v in fl["vramp"].to_numpy()] if self.ramp else None},
                 "args": {"t": [float(v) for v in ar.index], "x": [float(v) for v in ar["x"].to_numpy()]}}
 
 
@@ -259,6 +302,8 @@ def compare(run: Run, pst: dict, obs, stats: dict | None = None) -> dict | None:
             return {"what": "index", "segment": i, "expected": et, "observed": ot,
                     "observed_index": [x["t"] for x in obs]}
         ep = {"kin": g["p"]["kin"] * run.r.ps, "k": g["p"]["kk"] * run.r.ps}
+        if getattr(run, "ramp", 0.0):
+            ep["r"] = run.ramp
         if set(o["p"]) != set(ep) or any(not tclose(o["p"][n], ep[n]) for n in ep):
             return {"what": "parameters", "segment": i, "expected": ep, "observed": o["p"]}
     # values: walk the history
@@ -270,6 +315,19 @@ def compare(run: Run, pst: dict, obs, stats: dict | None = None) -> dict | None:
             rec = hist[hi]
             if rec["k"] == "init":
                 x = X0
+                if getattr(run, "ia", False) and i == 0 and start_row[0] and g["times"][0] == g["t0"] \
+                        and hi == g["sidx"] - 1:
+                    # assignment-defined initial value and parameters updated before the first run: the statement
+                    # does not say whether a simulator that has not run yet starts from the model's initial
+                    # conditions as they were at construction or as they are now -- either is accepted (and counted)
+                    cands = {X0} | {X0 * u / P0["kin"] for u in run.cand_kin | {g["p"]["kin"]}}
+                    hit = [c for c in sorted(cands) if close(o["x"][0], c, 1e-9, 1e-12)]
+                    if not hit:
+                        return {"what": "start-state", "expected_one_of": sorted(cands), "observed": o["x"][0]}
+                    x = hit[0] if X0 not in hit else X0
+                    if stats is not None and len(cands) > 1:
+                        key = "start_state_as_at_construction" if x == X0 else "start_state_follows_current_parameters"
+                        stats[key] = stats.get(key, 0) + 1
             elif rec["k"] == "free":
                 # bound to the first row of the first segment when that row is the starting point
                 own = hist[g["sidx"]]["k"] == "flow" and g["times"][0] == g["t0"]
@@ -288,7 +346,7 @@ def compare(run: Run, pst: dict, obs, stats: dict | None = None) -> dict | None:
         ts = o["t"]
         loose = frec["k"] == "ss"
         for tv, xv in zip(ts, o["x"]):
-            e = flow(kin, k, tv - t0, x)
+            e = flow_t(kin, k, getattr(run, "ramp", 0.0), t0, tv, x)
             err = abs(e - xv)
             tol = ABS + (SS_REL if loose else REL) * max(abs(e), abs(xv))
             if max(abs(e), abs(xv)) < FRAGILE_BELOW:
@@ -304,7 +362,7 @@ def compare(run: Run, pst: dict, obs, stats: dict | None = None) -> dict | None:
                         "start_state": x, "start_time": t0, "parameters": {"kin": kin, "k": k},
                         "steady_state_point": loose}
         # the state reached: closed form, except after a steady-state point (its accuracy is not ours to judge)
-        x = o["x"][-1] if loose else flow(kin, k, ts[-1] - t0, x)
+        x = o["x"][-1] if loose else flow_t(kin, k, getattr(run, "ramp", 0.0), t0, ts[-1], x)
     return None
 
 
@@ -329,6 +387,10 @@ def compare_views(run: Run, pst: dict, obs) -> dict | None:
         if not tclose(vin, p["kin"] * PS) or not close(vout, p["kk"] * PS * xv, 1e-9, 1e-12):
             return {"what": "fluxes", "time": tv, "expected": {"vin": p["kin"] * PS, "vout": p["kk"] * PS * xv},
                     "observed": {"vin": vin, "vout": vout}}
+    if run.ramp:
+        for (tv, _, _), vr in zip(rows, fl["vramp"]):
+            if not close(vr, run.ramp * tv, 1e-9, 1e-15):
+                return {"what": "fluxes", "time": tv, "expected": {"vramp": run.ramp * tv}, "observed": {"vramp": vr}}
     return None
 
 
@@ -342,42 +404,57 @@ def has_eps(hist_steps: list) -> bool:
     return False
 
 
-def replay_history(hist_steps: list, *, views_at_end: bool = True, r: Rendering = SMALL) -> tuple[dict | None, dict]:
+def hist_salt(hist_steps: list) -> int:
+    import zlib
+
+    return zlib.crc32(json.dumps([s["op"] for s in hist_steps], sort_keys=True).encode())
+
+
+def replay_history(hist_steps: list, *, views_at_end: bool = True, r: Rendering = SMALL, ramp: bool = False,
+                   ia: bool = False) -> tuple[dict | None, dict]:
     """Drive one emitted behaviour through the real Simulator; compare after every step.  Raw results are compared
     after every call; the computed views as well once the history itself has read them (operation "read"), and
     always at the end."""
-    import zlib
-
-    run = Run(r, salt=zlib.crc32(json.dumps([s["op"] for s in hist_steps], sort_keys=True).encode()))
+    run = Run(r, salt=hist_salt(hist_steps), ramp=ramp, ia=ia)
     stats = run.stats
+    tag = r.name + ("+ramp" if ramp else "") + ("+ia" if ia else "")
     obs = None
     for j, step in enumerate(hist_steps):
+        if j > 0 and not hist_steps[j - 1]["st"]["segs"]:
+            run.cand_kin.add(hist_steps[j - 1]["st"]["p"]["kin"])
         got = run.apply(step["op"])
         if got["raised"] != step["raised"]:
             return ({"what": "raised", "step": j, "expected_raised": step["raised"], "observed": got,
-                     "rendering": r.name, "observed_index": [o["t"] for o in (run.observe() or [])]}, stats)
+                     "rendering": tag, "observed_index": [o["t"] for o in (run.observe() or [])]}, stats)
         obs = run.observe()
         bad = compare(run, step["st"], obs, stats)
         if bad is None and run.touched:
             bad = compare_views(run, step["st"], obs)
         if bad:
-            return ({**bad, "step": j, "rendering": r.name}, stats)
+            return ({**bad, "step": j, "rendering": tag}, stats)
     if views_at_end and hist_steps:
         bad = compare_views(run, hist_steps[-1]["st"], obs)
         if bad:
-            return ({**bad, "step": len(hist_steps) - 1, "rendering": r.name}, stats)
+            return ({**bad, "step": len(hist_steps) - 1, "rendering": tag}, stats)
     return None, stats
 
 
 def replay_renderings(hist_steps: list) -> tuple[dict | None, dict]:
     """Both renderings are exact.  Histories with an epsilon point (and no steady-state run, whose search length
     depends on the time scale) are replayed at large absolute times, where an epsilon is a relative 1e-6; the
-    others in the small rendering."""
-    if has_eps(hist_steps) and all(s["op"]["k"] != "ss" for s in hist_steps):
-        bad, stats = replay_history(hist_steps, r=LARGE)
-        stats["large"] = 1
-        return bad, stats
-    return replay_history(hist_steps)
+    others in the small rendering.  Seeded by the history itself: half of the histories without a steady-state
+    run use the time-dependent member of the family (extra inflow r * time: the model must see ABSOLUTE time in
+    every continuation), half of all histories a model whose initial value is assignment-defined."""
+    salt = hist_salt(hist_steps)
+    no_ss = all(s["op"]["k"] != "ss" for s in hist_steps)
+    ramp = no_ss and (salt >> 3) % 2 == 0
+    ia = (salt >> 4) % 2 == 0
+    r = LARGE if (has_eps(hist_steps) and no_ss) else SMALL
+    bad, stats = replay_history(hist_steps, r=r, ramp=ramp, ia=ia)
+    stats["large"] = int(r is LARGE)
+    stats["ramp"] = int(ramp)
+    stats["ia"] = int(ia)
+    return bad, stats
 
 
 # ---- shapes of failing histories (keys of known findings) ---------------------------------------------------
@@ -408,6 +485,13 @@ def classify(hist_steps: list, detail: dict) -> str | None:
         return "steady-state-restarts-from-initial-state"
     if "read" in before and "upd" in before and cur in ADVANCING + ("ss",) and what in ("parameters", "values", "trace"):
         return "reading-views-restores-old-parameters"
+    # time-dependent member of the family: an override after some result, then anything whose values are wrong
+    if "+ramp" in str(detail.get("rendering", "")) and what == "values":
+        seen = False
+        for k in before + [cur]:
+            if k == "ov" and seen:
+                return "time-dependent-rate-after-variable-update"
+            seen = seen or k in ADVANCING + ("ss",)
     # an override made after some result exists, then a continuation
     seen_result = False
     for k in before:
@@ -539,7 +623,8 @@ def record_trace(seed, length: int, weights: dict | None = None, ops: list | Non
     weights = dict(weights or DEFAULT_WEIGHTS)
     if r is LARGE:
         weights["ss"] = 0
-    run = Run(r, salt=rnd.randrange(1 << 16))
+    ramp = r is LARGE      # no steady-state runs there: the time-dependent member of the family
+    run = Run(r, salt=rnd.randrange(1 << 16), ramp=ramp)
     ev = []
     offgrid = None
     values = []
@@ -587,4 +672,4 @@ def record_trace(seed, length: int, weights: dict | None = None, ops: list | Non
         ev.append({"op": op, "raised": got["raised"], "segs": segs, "err": obs is None, "vread": run.touched,
                    "views": views})
         values = [o["x"] for o in obs or []]
-    return {"seed": str(seed), "ev": ev, "offgrid": offgrid, "values": values, "rendering": rendering}
+    return {"seed": str(seed), "ev": ev, "offgrid": offgrid, "values": values, "rendering": rendering, "ramp": ramp}
